@@ -120,7 +120,7 @@ array_t* get_dir (char *path, int flags) {
 
   struct stat st;
   char *endtemp;
-  char temppath[MAX_FNAME_SIZE + MAX_PATH_LEN + 2];
+  char temppath[MAX_FNAME_SIZE + MAX_PATH_LEN + 2 + MAX_FNAME_SIZE + 1];	/* the path, '/', one entry's name */
   char regexppath[MAX_FNAME_SIZE + MAX_PATH_LEN + 2];
   char *p;
 
@@ -260,8 +260,13 @@ array_t* get_dir (char *path, int flags) {
            * We'll have to .... sigh.... stat() the file to get some add'tl
            * info.
            */
-          strcpy (endtemp, de->d_name);
-          stat (temppath, &st);	/* We assume it works. */
+          if ((size_t) (endtemp - temppath) + namelen < sizeof (temppath))
+            {
+              strcpy (endtemp, de->d_name);
+              stat (temppath, &st);	/* We assume it works. */
+            }
+          else
+            memset (&st, 0, sizeof (st));	/* no room for the entry's full path */
         }
       encode_stat (&v->item[i], flags, de->d_name, &st);
       i++;
